@@ -140,7 +140,7 @@ def find_item(text, header_re, nth=0):
     return m.start(), ob, match_close(masked, ob) + 1
 
 
-def find_fn(text, name, within=None):
+def find_fn(text, name, within=None, nth=None):
     """Locate `fn name` inside text (optionally restricted to (a,b) range).
     Returns dict(sig=..., body=..., start, body_open, end) where body includes
     the outer braces."""
@@ -149,9 +149,11 @@ def find_fn(text, name, within=None):
     ms = [m for m in re.finditer(r'\b(?:async\s+)?fn\s+%s\b' % re.escape(name), masked[a:b])]
     if not ms:
         raise ExtractError('fn %s not found' % name)
-    if len(ms) > 1:
+    if nth is None and len(ms) > 1:
         raise ExtractError('fn %s ambiguous (%d matches)' % (name, len(ms)))
-    s = a + ms[0].start()
+    if nth is not None and nth >= len(ms):
+        raise ExtractError('fn %s#%d not found' % (name, nth))
+    s = a + ms[nth or 0].start()
     ob = find_body_open(masked, s)
     if ob < 0:
         raise ExtractError('fn %s has no body' % name)
